@@ -191,6 +191,11 @@ def crafted_instances():
             out.append((nm + '_np', dict(inst0, numpy=True)))
     free_stop = {'elems': gearpair, 'load': ld(c0=F(1, 1000)), 'ctrls': [], 'stops': [{'sensor': 'tach', 'el': 0, 'op': 'gt', 'thr': F(50)}], 'ops': sched(40, stop=0)}
     out.append(('free_stop_gt', free_stop))
+    # a LONG request (thousands of instants asked for) that a stop condition ends after a few dozen
+    for nm, n_req, thr in (('long_request_stop', 5000, F(150)), ('long_request_stop_9000', 9000, F(120))):
+        ops_l = [{'op': 'set_initial', 'pos': F(0), 'spd': F(0)}, {'op': 'new_solver', 'sid': 1},
+                 {'op': 'run', 'sid': 1, 'dt': F(1, 1000), 'T': F(n_req, 1000), 'dt_unit': 'sec', 'T_unit': 'sec', 'stop': 0}]
+        out.append((nm, {'elems': gearpair, 'load': ld(c0=F(1, 1000)), 'ctrls': [], 'stops': [{'sensor': 'tach', 'el': 0, 'op': 'ge', 'thr': thr}], 'ops': ops_l}))
     out.append(('free_stop_gt_np', dict(free_stop, numpy=True)))
     # the same loads on the non-self-locking stage and on a motor without current data: never clamped
     out.append(('free_overload', {'elems': [motor, worm, wheel_free, out_gear], 'load': ld(c0=5), 'ctrls': [[const(F(5, 200), 1, 0)]], 'stops': [], 'ops': sched(8, spd0=-3, ctrl=0)}))
